@@ -160,6 +160,61 @@ theorem string_route_reads_as_reference_any_carrier (K : Type) [OfBits K] (r : N
   obtain ⟨k, c, hv, hm⟩ := string_route_reads_as_reference_partial r hr hg
   exact ⟨k, c, hv, by simpa only [ctx, stringReading_mapK] using hm⟩
 
+/-- the prefix dict holds SI values -/
+theorem prefix_dict_is_SI : prefixDictOk = true := by decide +kernel
+
+/-- THE NUMERIC STATEMENT.  For every listed name outside the guard, `Unit(name)` at exact
+    arithmetic (the `Rat` tables: every cell the exact value of the double the code holds) is the
+    row `c` of the reference's unique reading `(k, c)` — same dimension, same offset — with the
+    scale of `c` multiplied by a prefix value that is `10^k` up to the rounding of a double
+    (and by nothing at all when the reading has no prefix). -/
+theorem listed_name_denotes_prefix_times_unit (r : NameRow) (hr : r ∈ allRows)
+    (hg : excluded r.name = false) (hne : r.name ≠ 0) :
+    ∃ k c eb e, refVerdict r.name = .unique k c ∧ (ctx Rat).lut.get? c = some eb
+      ∧ stringEntry (ctx Rat) r.name = some e ∧ e.dim = eb.dim ∧ e.offset = eb.offset
+      ∧ ((k = 0 ∧ e.scale = eb.scale) ∨
+         (∃ pv, e.scale = eb.scale * pv ∧ absR (pv - Ref.C14.pow10 k) ≤ Ref.C14.pow10 k / (2 ^ 50 : Nat))) := by
+  obtain ⟨k, c, hv, hm⟩ := string_route_reads_as_reference_any_carrier Rat r hr hg
+  cases hsr : stringReading (ctx Rat) r.name with
+  | none => simp [hsr, readingMatches] at hm
+  | some rd =>
+    cases rd with
+    | one =>
+      -- only the empty string is read as `one`
+      unfold stringReading at hsr
+      split at hsr
+      · rename_i h0; exact absurd (Nat.eq_of_beq_eq_true h0) hne
+      · simp only [Name.force_eq] at hsr
+        split at hsr
+        · cases hsr
+        · split at hsr <;> cases hsr
+    | sym s p b =>
+      simp only [hsr, readingMatches, Bool.and_eq_true, beq_iff_eq] at hm
+      obtain ⟨hb, hp⟩ := hm
+      have hbc : b = c := Nat.eq_of_beq_eq_true hb
+      subst hbc
+      rcases string_value_of_reading (ctx Rat) r.name s p b hsr with ⟨hp0, _, eb, heb, hse⟩ | ⟨hp0, pv, eb, hpv, heb, _, hse⟩
+      · refine ⟨k, b, eb, eb, hv, heb, hse, rfl, rfl, Or.inl ⟨?_, rfl⟩⟩
+        simp only [prefixExp, hp0] at hp
+        simpa using hp.symm
+      · refine ⟨k, b, eb, _, hv, heb, hse, rfl, rfl, Or.inr ⟨pv, rfl, ?_⟩⟩
+        -- the prefix value comes from the regenerated prefix dict, which holds SI values
+        have hpe : findN p Ref.C14.prefixSymbols = some k := by
+          simp only [prefixExp, beq_zero_false hp0] at hp
+          simpa using hp
+        simp only [ctx, Ctx.mapK, ctxBits, Dict.get?_map] at hpv
+        cases hv0 : prefixesT.get? p with
+        | none => simp [hv0] at hpv
+        | some v =>
+          simp only [hv0, Option.map_some, Option.some.injEq] at hpv
+          have hmem := Dict.mem_toList_of_get? prefixesT p v hv0
+          have hall := prefix_dict_is_SI
+          simp only [prefixDictOk, List.all_eq_true] at hall
+          have := hall (p, v) hmem
+          simp only [hpe, decide_eq_true_eq] at this
+          rw [← hpv]
+          exact this
+
 /-- no name has a second, different reading: for every listed name (guarded or not) the reference
     reader — which tries every prefix spelling at every position and every spelling of every unit —
     finds a unique reading in the winning class -/
